@@ -33,16 +33,18 @@ structure Cfg where
   arrayViewsFix : Bool -- C06-array-row-views.diff: `_array` is never a 2-d object block
   appendFix : Bool     -- C06-append-flat-row.diff
   priorityFix : Bool   -- C06-array-priority.diff: numpy scalars on the left defer to the reflected operators
+  appendEmptyFix : Bool -- C06-append-all-empty.diff: `append` re-initialises only an array WITHOUT rows
   deriving Repr, DecidableEq
 
-/-- `/repo` HEAD: all five repairs are committed (`fix:` commits of C05-ra-reads, C06-setitem-row-views,
-C06-append-flat-row, C06-array-row-views, C06-array-priority) -/
-def Cfg.current : Cfg := ⟨true, true, true, true, true⟩
+/-- `/repo` HEAD: all six repairs are committed (`fix:` commits of C05-ra-reads, C06-setitem-row-views,
+C06-append-flat-row, C06-array-row-views, C06-array-priority, C06-append-all-empty) -/
+def Cfg.current : Cfg := ⟨true, true, true, true, true, true⟩
 abbrev Cfg.fixed : Cfg := Cfg.current
 /-- older variants, kept only to state what the repairs changed -/
-def Cfg.asIs : Cfg := ⟨false, false, false, false, false⟩          -- before the read-side repair
-def Cfg.beforeC06 : Cfg := ⟨true, false, false, false, false⟩      -- read-side repair only
-def Cfg.beforePriority : Cfg := ⟨true, true, true, true, false⟩    -- without `__array_priority__`
+def Cfg.asIs : Cfg := ⟨false, false, false, false, false, false⟩          -- before the read-side repair
+def Cfg.beforeC06 : Cfg := ⟨true, false, false, false, false, false⟩      -- read-side repair only
+def Cfg.beforePriority : Cfg := ⟨true, true, true, true, false, false⟩    -- without `__array_priority__`
+def Cfg.beforeAppendEmpty : Cfg := ⟨true, true, true, true, true, false⟩  -- `append` tested `len(self._data) == 0`
 
 variable {α : Type}
 
@@ -505,6 +507,11 @@ def setRowsWith (cfg : Cfg) (s : State α) (form : Form) (vs : List (List α)) :
       | .error e => .error e
       | .ok s' => .ok (s', none))
 
+/-- the test `append` uses for "the current RaggedArray is blank": `len(self._data) == 0` (true also for
+an array whose rows are all empty) or, repaired, `len(self.lengths) == 0` -/
+def blankTest (cfg : Cfg) (s : State α) : Bool :=
+  if cfg.appendEmptyFix then s.lengths.isEmpty else s.data.isEmpty
+
 /-- numpy's own scalar operator runs first: without `__array_priority__` it converts the ragged array
 through `__len__/__getitem__` — an inhomogeneous-shape ValueError for unequal rows, a plain 2-d ndarray
 (not a RaggedArray) for equal rows; with it, numpy defers to `RaggedArray.__r<op>__` -/
@@ -597,20 +604,20 @@ def step (cfg : Cfg) (s : State α) : Op α → Except Err (State α × Option (
       | .error e => .error e
       | .ok s' => .ok (s', none)
   | .append vs form =>
+    if blankTest cfg s then             -- `self.__init__(values)`: the array is REPLACED by the values
+      match initRows vs (leakVal cfg form vs) with
+      | .error e => .error e
+      | .ok s' => .ok (s', none)
+    else
     match vs with
-    | [] => .error .valueError          -- np.concatenate([])
+    | [] => .error (if cfg.appendFix then .indexError else .valueError)   -- `values[0]` / np.concatenate([])
     | _ =>
-      if s.data.isEmpty then            -- `if len(self._data) == 0: self.__init__(values)`
-        match initRows vs (leakVal cfg form vs) with
-        | .error e => .error e
-        | .ok s' => .ok (s', none)
-      else
       match rebuild (s.data ++ vs.flatten) (s.lengths ++ vs.map List.length)
           (s.objDtype || leakVal cfg form vs) with
       | .error e => .error e
       | .ok s' => .ok (s', none)
   | .appendFlat v =>
-    if s.data.isEmpty then              -- `self.__init__(values)` with a flat sequence
+    if blankTest cfg s then             -- `self.__init__(values)` with a flat sequence
       match v with
       | [] => .error .emptyArray
       | _ => .ok (⟨v, [v.length], [v], true, false⟩, none)
@@ -853,7 +860,7 @@ def specStep (rows : Rows α) : Op α → Except Err (Rows α × Option (Rows α
     else .error .indexError
   | .append vs _ =>
     match vs with
-    | [] => .error .valueError
+    | [] => .error .indexError           -- `values[0]`
     | _ => .ok (rows ++ vs, none)
   | .appendFlat v =>
     match v with
